@@ -433,8 +433,12 @@ def rdR : Nat → Nat → List Nat → Option (Items × List Nat)
       | none => none
 end
 
-/-- `read_from_msg_pack::<Value, _>`: the value and the unread rest of the buffer. -/
-def mpRead (bs : List Nat) : Option (Value × List Nat) := rdV (bs.length + 1) bs
+/-- `read_from_msg_pack::<Value, _>`: the value and the unread rest of the buffer.
+Fuel: one nesting level (`rdV → rdB → rdR/rdM → rdV`) takes three units of fuel and may consume only two bytes (the
+attribute-count header and the body header), so `bs.length + 1` is NOT enough — with it `80 91 80 91 c0`
+(`{ { Extant } }`, which the real reader accepts) was rejected; `2 * bs.length + 1` suffices
+(`Proofs/MsgPackFuel.lean`: `depthV v + 1 ≤ 2 * (wV v).length`). -/
+def mpRead (bs : List Nat) : Option (Value × List Nat) := rdV (2 * bs.length + 1) bs
 
 /-! ## the fragment and the normalisation of the round trip -/
 
